@@ -187,6 +187,29 @@ class Ctx:
                     return rl
         return lin_var(("len", self.name(l)))
 
+    def _callee_payload(self, e):
+        """`helper(args)?` / `helper(args).Ok.0`: the Ok payload of a crate-local helper as a linear form
+        over the caller's terms, when every Ok exit of the helper returns the same linear function of its
+        parameters"""
+        if e.b not in ("Continue.0", "Ok.0"):
+            return None
+        x = e.a
+        if x.k == "call" and x.a.path == "std::ops::Try::branch":
+            ax = call_arg_exprs(x.a)
+            x = ax[0] if ax else None
+        if x is None or x.k != "call" or not x.a.is_local or x.a.fn is not self.fn:
+            return None
+        prog = self.fn.prog
+        if prog is None:
+            return None
+        gs = prog.callee_fns(x.a)
+        if len(gs) != 1 or not gs[0].blocks:
+            return None
+        summ = ok_summary(gs[0], self.view_info)
+        if summ is None or summ[1] is None:
+            return None
+        return translate(summ[1], gs[0], x.a, self)
+
     def tuple_len(self, l, field, depth):
         ds = def_sites(self.fn, l)
         if len(ds) == 1 and ds[0][1] == "call" and ds[0][2].path in ("core::slice::<impl [T]>::split_at", "core::slice::<impl [T]>::split_at_mut"):
@@ -270,6 +293,9 @@ class Ctx:
                 return self.lin(E("binop", e.a.a.replace("WithOverflow", ""), e.a.b, e.a.c), depth + 1)
             # payload of Some(checked_sub(x, y)) / Some(checked_add(x, y)): exactly x -/+ y (the payload is
             # only read in the arm that matched Some)
+            pl = self._callee_payload(e)
+            if pl is not None:
+                return pl
             ck = checked_arith(e.a)
             if ck is not None and e.b == "Some.0":
                 l, r = self.lin(ck[1], depth + 1), self.lin(ck[2], depth + 1)
@@ -463,9 +489,103 @@ def cmp_to_constraints(op, l, r):
     return []
 
 
-def edge_constraints(fn, ctx):
-    """{(switch_bb, target_bb): [constraints]} from comparisons in switch conditions."""
+_summ_memo = {}
+
+
+def _param_based(lin, names):
+    for v in lin_vars(lin):
+        if isinstance(v, tuple) and v[0] == "constparam":
+            continue
+        if isinstance(v, tuple) and v[0] in ("len", "local") and v[1] in names:
+            continue
+        return False
+    return True
+
+
+def ok_summary(g, view_info, stack=()):
+    """(constraints, payload): linear constraints over g's parameters that hold at every Ok-capable
+    return of g (the Ok-postcondition of a validating helper) and, if every Ok exit returns the same
+    linear function of the parameters, that payload."""
+    from .expr import result_kind_of_ret
+    if g.key in _summ_memo and _summ_memo[g.key][0] is g:
+        return _summ_memo[g.key][1]
+    if g.key in stack or len(stack) > 4 or g.locals[0].get("path") != "std::result::Result":
+        return None
+    ctx = Ctx(g, view_info)
+    names = {ctx.name(p): p for p in range(1, g.argc + 1)}
+    econs = edge_constraints(g, ctx, stack + (g.key,))
+    res = None
+    payloads = []
+    for b, kind, e in result_kind_of_ret(g):
+        if kind == "err" or b not in g.reachable(0):
+            continue
+        cur = {}
+        for lin, rel in facts_at(g, b, econs):
+            if _param_based(lin, names):
+                cur[(tuple(sorted((repr(k), v) for k, v in lin.items())), rel)] = (lin, rel)
+        res = cur if res is None else {k: v for k, v in cur.items() if k in res}
+        pl = None
+        if kind == "ok":
+            for st in g.blocks[b]["s"]:
+                if st["k"] == "assign" and st["rv"]["k"] == "agg" and st["rv"].get("path") == "std::result::Result" and st["rv"].get("variant") == "Ok" and st["rv"]["ops"]:
+                    pl = ctx.lin(expr_of_operand(g, st["rv"]["ops"][0]))
+        payloads.append(pl if pl is not None and _param_based(pl, names) else None)
+    payload = payloads[0] if payloads and all(p is not None and p == payloads[0] for p in payloads) else None
+    out = (list((res or {}).values()), payload)
+    _summ_memo[g.key] = (g, out)
+    return out
+
+
+def translate(lin, g, call, ctx):
+    """rewrite a linear form over g's parameters into the caller's terms at `call`"""
+    gctx = Ctx(g, ctx.view_info)
+    names = {gctx.name(p): p for p in range(1, g.argc + 1)}
+    out = lin_const(lin.get(1, 0))
+    for v in lin_vars(lin):
+        coef = lin[v]
+        if isinstance(v, tuple) and v[0] == "constparam":
+            out = lin_add(out, lin_scale(lin_var(v), coef))
+            continue
+        p = names.get(v[1]) if isinstance(v, tuple) and len(v) > 1 else None
+        if p is None or p > len(call.args):
+            return None
+        a = call.args[p - 1]
+        if v[0] == "local":
+            al = ctx.lin(expr_of_operand(ctx.fn, a))
+        else:
+            al = ctx.len_of_operand(a)
+        if al is None:
+            return None
+        out = lin_add(out, lin_scale(al, coef))
+    return out
+
+
+def edge_constraints(fn, ctx, stack=()):
+    """{(switch_bb, target_bb): [constraints]} from comparisons in switch conditions; the Ok edge of a
+    call to a crate-local Result-returning helper carries the helper's Ok-postcondition."""
     out = {}
+    prog = fn.prog
+    if prog is not None:
+        from .expr import decisive_edges
+        for c in fn.calls():
+            if not c.is_local or c.dest["p"] or fn.locals[c.dest["l"]].get("path") != "std::result::Result":
+                continue
+            gs = prog.callee_fns(c)
+            if len(gs) != 1 or not gs[0].blocks:
+                continue
+            summ = ok_summary(gs[0], ctx.view_info, stack)
+            if not summ or not summ[0]:
+                continue
+            tr = []
+            for lin, rel in summ[0]:
+                t = translate(lin, gs[0], c, ctx)
+                if t is not None:
+                    tr.append((t, rel))
+            if not tr:
+                continue
+            good, bad = decisive_edges(fn, c, ("res", "Ok", None), ("res", "Err", None))
+            for e_ in good:
+                out.setdefault(e_, []).extend(tr)
     for b in range(fn.n):
         t = fn.blocks[b]["t"]
         if t["k"] != "switch":
